@@ -502,6 +502,16 @@ class Interp:
                 acc.append(rv(c) * s.mono[k])
         return z3.Sum(acc) if len(acc) > 1 else (acc[0] if acc else rv(0))
 
+    def mono_defs(s):
+        """defining equations of the named monomials (adding them turns the linear abstraction into the exact non-linear query)"""
+        out = []
+        for k, m in s.mono.items():
+            prod = s.zvar(k[0])
+            for n in k[1:]:
+                prod = prod * s.zvar(n)
+            out.append(m == prod)
+        return out
+
     def check(s, *extra, timeout_ms=None):
         sol = z3.Solver()
         sol.set("timeout", timeout_ms or s.timeout_ms)
